@@ -81,6 +81,9 @@ Section CacheProofs.
     intros o. unfold GConfCacheModel.spec. destruct o; cbn; destruct (conv _ _); cbn; discriminate.
   Qed.
 
+  Lemma run_all_fresh_nil : forall h, run [] h = map fresh h.
+  Proof. intros h. exact (run_all_fresh h [] inv_nil). Qed.
+
   Lemma run_no_panic : forall h, ~ In OPanic (run [] h).
   Proof.
     intros h H. rewrite (run_all_fresh h [] inv_nil) in H. apply in_map_iff in H.
@@ -218,3 +221,16 @@ Lemma orig_nil_interface :
   run_orig gty gty_eqb gty_iface gty_name wconv [] [Get "n" Tany] = [OPanic] /\
   fresh gty gty_eqb wconv (Get "n" Tany) = OVal VNil.
 Proof. split; vm_compute; reflexivity. Qed.
+
+(* the two refutations of the pinned code, in the form Props/C10.v states them *)
+Lemma orig_refuted_collision :
+  exists h o, last (run_orig gty gty_eqb gty_iface gty_name wconv [] (h ++ [o])%list) OErr
+              <> fresh gty gty_eqb wconv o.
+Proof.
+  exists [Get "a" Tuint8], (Get "au" Tint8). destruct orig_collision as [R F].
+  cbn [app]. rewrite R, F. cbn. discriminate.
+Qed.
+
+Lemma orig_refuted_nil_interface :
+  exists h, In OPanic (run_orig gty gty_eqb gty_iface gty_name wconv [] h).
+Proof. exists [Get "n" Tany]. destruct orig_nil_interface as [R _]. rewrite R. left. reflexivity. Qed.
